@@ -71,7 +71,12 @@ func (enc Encoding) base64Encoding() *base64.Encoding {
 // value (or MI header value in draft 02), and error if one exists.
 func (enc Encoding) Encode(w io.Writer, buf []byte, recordSize int) (string, error) {
 
-	numRecords := (len(buf) + recordSize - 1) / recordSize
+	// ceil(len(buf) / recordSize), computed without adding recordSize (which
+	// overflows for very large record sizes).
+	numRecords := len(buf) / recordSize
+	if len(buf)%recordSize != 0 {
+		numRecords++
+	}
 
 	switch enc {
 	case Draft02Encoding:
